@@ -55,3 +55,23 @@ contract('parso.python.tree.Param.__init__',
                   'kinds=dict(x="ref:NodeOrLeaf"), trigger=lambda x: x.parent)'],
          modifies=['self.children', 'self.parent', 'parent'], call_keys={'parso.tree.BaseNode.__init__': 'parso.tree.BaseNode.__init__'},
          props=['C11', 'C19'])
+
+# ---- the remaining node constructors reached through Parser.convert_node (C02: convert_node returns a node)
+NODE_INIT = dict(requires=['children is not None',
+                           'forall(lambda k: implies(0 <= k and k < len(children), children[k] is not None and children[k] is not self), '
+                           'trigger=lambda k: children[k])'],
+                 ensures=['self.children is children',
+                          'forall(lambda k: implies(0 <= k and k < len(children), children[k].parent is self), trigger=lambda k: children[k])'],
+                 modifies=['self.children', 'self.parent', 'parent'], props=['C02', 'C19'])
+for _q, _cls in (('parso.python.tree.Scope.__init__', 'Scope'), ('parso.python.tree.Class.__init__', 'Class')):
+    contract(_q, params={'self': 'ref:' + _cls, 'children': 'list:ref:NodeOrLeaf'}, **NODE_INIT)
+contract('parso.python.tree.Module.__init__', params={'self': 'ref:Module', 'children': 'list:ref:NodeOrLeaf'},
+         requires=NODE_INIT['requires'], ensures=NODE_INIT['ensures'],
+         modifies=['self.children', 'self.parent', 'parent', 'self._used_names'], props=['C02', 'C19'])
+# Function / Lambda regroup their parameters (calls _create_params, not under contract): ASSUMED total on the children of a
+# funcdef / lambdef production; they may re-parent the parameter leaves and change the parameter node's children list
+for _q, _cls in (('parso.python.tree.Function.__init__', 'Function'), ('parso.python.tree.Lambda.__init__', 'Lambda')):
+    contract(_q, params={'self': 'ref:' + _cls, 'children': 'list:ref:NodeOrLeaf'}, trusted=True,
+             requires=NODE_INIT['requires'], ensures=['self.children is children'],
+             modifies=['self.children', 'self.parent', 'parent', 'children'], lists='*',
+             note='ASSUMED: total on grammar-shaped children (funcdef / lambdef); regroups parameters into Param nodes in place')
